@@ -139,6 +139,10 @@ class Rotate(Domain):
             rotation_matrix, shifted_points.unsqueeze(-1)
         )
         shifted_points = rotated_points.squeeze(-1) + translate_values
+        # the points may carry parameter values themselves, keep them
+        params = points.join(params)
+        param_vars = [var for var in params.space if var not in self.space]
+        params = params[:, param_vars] if len(param_vars) > 0 else Points.empty()
         return self.domain._contains(Points(shifted_points, self.space), params)
 
     def sample_random_uniform(
